@@ -16,6 +16,7 @@ import (
 type replayFile struct {
 	Inputs map[string]uint64            `json:"inputs"`
 	UF     map[string]map[string]uint64 `json:"uf"`
+	Label  string                       `json:"label"`
 }
 
 var rf replayFile
@@ -49,7 +50,7 @@ func load() {
 }
 
 // Reset re-arms the replay state (used by the replay test between runs).
-func Reset() { loaded = false; nChoice = 0; Failed = nil; AssumeFailed = false; resetConc() }
+func Reset() { loaded = false; nChoice = 0; lastChoice = nil; Failed = nil; AssumeFailed = false; resetConc() }
 
 func in(name string) uint64 { load(); return rf.Inputs[name] }
 
@@ -98,12 +99,26 @@ func String(name string, n int) string { return string(Bytes(name, n)) }
 // Choice returns a fresh value in [0,k) at every call.
 func Choice(name string, k int) int {
 	nChoice++
-	v := int(in(fmt.Sprintf("%s#%d", name, nChoice)))
+	load()
+	raw, recorded := rf.Inputs[fmt.Sprintf("%s#%d", name, nChoice)]
+	v := int(raw)
+	if !recorded && rf.Label == "nonterm" {
+		// the witness of a non-terminating run was cut at the step budget: the answers go on as they were
+		v = lastChoice[name]
+	}
 	if v < 0 || v >= k {
 		v = 0
 	}
+	if recorded {
+		if lastChoice == nil {
+			lastChoice = map[string]int{}
+		}
+		lastChoice[name] = v
+	}
 	return v
 }
+
+var lastChoice map[string]int
 
 // UF1/UF2 are uninterpreted functions: equal arguments give equal results.
 func UF1(fn string, x int) int {
